@@ -23,22 +23,30 @@ THEOREMS = [
     'C06_crashed_then_refused', 'C06_journal_round_trip', 'C06_success_appends', 'C06_unlink_fault_state',
     'C06_reader_front_local', 'C06_crash_recoverable_warc', 'C06_crash_recoverable_warc_gz', 'C06_append_outcome',
     'C06_history_content', 'C06_history_no_journal', 'C06_history_then_crash_warc', 'C06_history_then_crash_warc_gz',
-    'C06_init_refuses',
+    'C06_init_refuses', 'C06_fault_sequence_recoverable',
 ]
 TRUSTED = [
-    'hand-written model Model/Journal.v of WARCRecorder.write_record / _check_journals_and_maybe_raise over Lib/FsModel.v '
-    '(files = path string -> bytes; primitives create/open/write/close/truncate/unlink), tied by the vm_compute correspondence '
-    'of this run on every enumerated fault and kill point',
+    'hand-written model Model/Journal.v of WARCRecorder.write_record / __init__ / _check_journals_and_maybe_raise / '
+    '_generate_warc_filename over Lib/FsModel.v (files = path string -> bytes; primitives create/open/write/close/truncate/unlink), '
+    'tied by the vm_compute correspondence of this run on every enumerated fault, fault-pair and kill point',
+    'Spec/WarcReader.v is the definition of "valid record sequence" (strict WARC/1.0 reader, one record per gzip member); it is '
+    'evaluated in Coq on the real archive bytes of this run and compared with an independent Python reader; for compressed '
+    'archives the gzip member decoder is a parameter, instantiated per run by a table recorded from the real zlib',
     'the injection layer of harness/impl/c06_impl.py (FileIO subclass, GzipFile subclass, os.remove wrapper installed in the '
-    'recorder module namespace; kill = os._exit in a forked child)',
+    'recorder module namespace; kill = os._exit in a forked child; in the quick tier the kills that follow an injected error are '
+    'simulated in-process by cutting every later primitive off the file system, every 7th one cross-checked against a real kill)',
     'durability below the write()/unlink() boundary (page cache, fsync, power loss, directory entry ordering, path aliasing) is '
     'outside the model',
 ]
 ASSUMPTIONS = [
     'the bytes one append hands to the OS are a list of writes (chunks) that does not depend on the adversary; an interrupted '
     'primitive leaves an arbitrary partial effect (a write: ANY bytes at the end of the file)',
-    'at most one injected I/O error per append (the rollback and the final unlink run without a further injected error); a kill '
-    'may come at any primitive, also after an error',
+    'at most one injected I/O error in the main path of an append and at most one more while its error handler runs; a kill '
+    'may come at any primitive, also after errors; exceptions other than OSError (KeyboardInterrupt, MemoryError) are not I/O errors',
+    'C06_*_warc_gz: a gzip member is self-delimiting - decoding the first member of c gives the same payload and leaves rest ++ y '
+    'when y is appended (sampled against the real zlib on every run: members of this run followed by nothing / another member / '
+    'random bytes / a truncated member / a gzip magic)',
+    'the appended record itself is a valid record (member): C05\'s concern; checked on every record of this run by both readers',
 ]
 
 
@@ -211,7 +219,16 @@ def property_on_run(cfg, res, run):
     m = len(res['ref_events']) - 1          # index of the final unlink
     if outcome.startswith('other:') or outcome.startswith('child-exit'):
         return 'unexpected-exception'
-    if outcome == 'oserror':
+    if outcome == 'oserror' and plan.get('fault2'):
+        # two I/O errors: restored, or (when the rollback could not be done) the journal is still there
+        arch = bytes.fromhex(after.get(A, ''))
+        mj = JOURNAL.match(bytes.fromhex(after.get(J, ''))) if J in after else None
+        if not (arch == old or (mj and int(mj.group(1)) == len(old) and arch[:len(old)] == old)):
+            return 'fault-sequence-unrecoverable'
+        for fn in set(before) | set(after):
+            if fn not in (A, J) and before.get(fn) != after.get(fn):
+                return 'fault-other-file-changed'
+    elif outcome == 'oserror':
         at_unlink = plan['mode'] == 'fault' and plan['k'] == m
         if at_unlink:
             # boundary: the unlink itself failed; the append is complete (see C06_unlink_fault_state)
@@ -284,6 +301,8 @@ def violations_of(cfg, res):
             tgt = ''
             if plan.get('mode') in ('fault', 'crash') and plan.get('k', 0) < len(ev):
                 tgt = '%s-%s' % (ev[plan['k']][0], ev[plan['k']][1])
+            if plan.get('fault2'):
+                tgt += '+fault2'
             if plan.get('crash2'):
                 tgt += '+crash2'
             out.append({'why': why, 'target': tgt, 'case': single_case(cfg, plan),
@@ -407,13 +426,18 @@ def model_check_terms(cfg, res):
              '(* the expected directory: the untouched other files + archive + journal (order is irrelevant to fs_eqb) *)',
              'Definition mk (a j : option bytes) : fs := (%s ++ opt nA a ++ opt nJ j)%%list.' % fst(rest),
              'Definition chk f c k a j := result_eqb (write_record A chunks f c s0) k (mk a j).',
-             'Definition chkf f c k e := result_eqb (write_record A chunks f c s0) k e.']
+             'Definition chkf f c k e := result_eqb (write_record A chunks f c s0) k e.',
+             'Definition chk2 f f2 k a j := result_eqb (write_record2 A chunks f f2 None s0) k (mk a j).']
 
-    def expect(kind, flt, crash, after):
+    def expect(kind, flt, crash, after, flt2=None):
         if {fn: c for fn, c in after.items() if fn not in (A, J)} == rest:
             a = 'Some %s' % enc(bytes.fromhex(after[A])) if A in after else 'None'
             j = 'Some %s' % enc(bytes.fromhex(after[J])) if J in after else 'None'
+            if flt2 is not None:
+                return 'chk2 %s %s %d (%s) (%s)' % (flt, flt2, kind, a, j)
             return 'chk %s %s %d (%s) (%s)' % (flt, crash, kind, a, j)
+        if flt2 is not None:
+            return 'false'      
         return 'chkf %s %s %d %s' % (flt, crash, kind, fst(after))
     # structural agreement of the fault-free append: same primitives in the same order, chunks add up
     kinds = {'create': 0, 'open_append': 1, 'write': 2, 'close': 3, 'open_rw': 4, 'truncate': 5, 'unlink': 6}
@@ -459,9 +483,18 @@ def model_check_terms(cfg, res):
             else:
                 pre = b'' if k <= 1 else jb
             cur = bytes.fromhex(after.get(tname, ''))
-            w = cur[len(pre):] if (plan.get('crash2') and cur.startswith(pre)) else b''
+            w = cur[len(pre):] if ((plan.get('crash2') or plan.get('fault2')) and cur.startswith(pre)) else b''
             flt = intr(k, plan.get('done', False), enc(w))
             c2 = plan.get('crash2')
+            f2 = plan.get('fault2')
+            if f2:
+                pev = parent.get('events') or []
+                r = next((i for i in range(parent.get('fired_at') or 0, len(pev)) if pev[i][0] == 'open_rw'), None)
+                if r is None or kind != 1 or not run.get('fired2'):
+                    note['why'] = 'second fault did not fire / no rollback seen'
+                    return 'false', note
+                flt2 = 'None' if f2['j'] < r else intr(k + 1 + (f2['j'] - r), f2.get('done', False), '[]')
+                return expect(kind, flt, crash, after, flt2), note
             if c2:
                 pev = parent.get('events') or []
                 r = next((i for i in range(parent.get('fired_at') or 0, len(pev)) if pev[i][0] == 'open_rw'), None)
@@ -476,7 +509,7 @@ def model_check_terms(cfg, res):
 
     parent = None
     for run in res['runs']:
-        if not run['plan'].get('crash2'):
+        if not (run['plan'].get('crash2') or run['plan'].get('fault2')):
             parent = run
         try:
             term, note = run_term(run, parent)
@@ -791,10 +824,10 @@ def gz_locality_cases(results, cfgs, r, n):
 # ---------------------------------------------------------------------------
 # the check
 # ---------------------------------------------------------------------------
-def _impl(cases, par=6):
-    payloads = [{'cases': [c]} for c in cases]
+def _impl(cases, par=6, per=1):
+    payloads = [{'cases': cases[i:i + per]} for i in range(0, len(cases), per)]
     outs = common.run_impl_sharded('c06_impl.py', payloads, par=par)
-    return [o['results'][0] for o in outs]
+    return [r for o in outs for r in o['results']]
 
 
 def _eval(bodies, index, disagreements):
@@ -808,7 +841,16 @@ def _eval(bodies, index, disagreements):
             disagreements.append({'config': label, 'note': 'model result differs', 'run': notes[int(f)]})
 
 
+LAST = {}
+
+
 def correspondence(ctx):
+    out = _correspondence(ctx)
+    LAST['impl_violations'] = len(out['impl_violations'])
+    return out
+
+
+def _correspondence(ctx):
     r = common.rng('c06')
     cfgs = configs(ctx.thorough)
     results = _impl(cfgs)
@@ -836,7 +878,7 @@ def correspondence(ctx):
         old = res['before'].get(res['archive'], '')
         for run in res['runs']:
             p = run['plan']
-            key = '%s/%s%s/%s' % (cfg_key(cfg), p['mode'], '+kill' if p.get('crash2') else '', run['outcome'])
+            key = '%s/%s%s/%s' % (cfg_key(cfg), p['mode'], '+kill' if p.get('crash2') else ('+fault' if p.get('fault2') else ''), run['outcome'])
             dist[key] = dist.get(key, 0) + 1
             a = run['after']
             if run['outcome'] == 'crashed' and (res['journal'] in a or a.get(res['archive'], '') != old):
@@ -845,7 +887,7 @@ def correspondence(ctx):
                 nontriv.add((ci, repr(sorted(p.items()))))
     # histories of appends with faults at arbitrary points
     hc = history_cases(r, 32 if not ctx.thorough else 600)
-    hres = _impl(hc)
+    hres = _impl(hc, per=8)
     items = []
     for c, res in zip(hc, hres):
         why = history_property(c, res)
@@ -906,7 +948,7 @@ def correspondence(ctx):
         'rule': 'every primitive (journal create/write/close, archive open, each raw write, close, final unlink) of one append, as '
                 'I/O error (not done / done; write prefixes 0, 1, half, all-but-one; sticky; Python-level write) and as kill, and for '
                 'one representative error per primitive every later event of that run (retry writes, closes, rollback '
-                'open/truncate/close, unlink) as a kill; x plain/gzip x archive absent / empty / 1 / 2 / 3 earlier records x '
+                'open/truncate/close, unlink) as a kill and as a second I/O error; x plain/gzip x archive absent / empty / 1 / 2 / 3 earlier records x '
                 'new-record shapes (empty block, multi-write with a 64-byte buffer, single write with a block); random histories of 2-7 appends '
                 'with faults at arbitrary primitives and an optional final kill; start-up (check and constructor) over prefixes with '
                 'glob characters and directories, existing archives, sequence numbers. non-trivial = distinct (configuration, '
@@ -926,6 +968,8 @@ def correspondence(ctx):
 def search(ctx, disagreements):
     """larger scope on the implementation only (no Coq in the loop): every prefix of every write,
     real buffer sizes, longer archives"""
+    if LAST.get('impl_violations'):
+        return []       # the enumerated scope already exhibits concrete failing inputs
     done = [repr(c) for c in configs(ctx.thorough)]
     cfgs = [c for c in configs(True) if repr(c) not in done]      # the scope beyond what correspondence() already ran
     out = []
@@ -933,7 +977,7 @@ def search(ctx, disagreements):
         out += violations_of(cfg, res)
     r = common.rng('c06-search')
     hc = history_cases(r, 300)
-    for c, res in zip(hc, _impl(hc)):
+    for c, res in zip(hc, _impl(hc, per=10)):
         why = history_property(c, res)
         if why:
             out.append({'why': why, 'target': 'history', 'case': c, 'impl': {'outcomes': [a['outcome'] for a in res['attempts']]}})
@@ -955,17 +999,27 @@ def replay(ctx, data):
     return bool(violations_of(case, res))
 
 
-LEVEL_TEXT = ('Coq theorems over Model/Journal.v, closed under the global context, for ALL directories, archive names, chunkings of '
-              'the record, fault positions with arbitrary partial effect and crash points (incl. a crash during the rollback after '
-              'an error): an I/O error at any primitive of the append except the final unlink leaves the archive content, the '
-              'absence of the journal and every other file exactly as before (C06_io_error_restores); a crash leaves the archive '
-              'old, old+record, or a complete journal naming the old length whose truncation restores the old content '
-              '(C06_crash_recoverable_content / C06_crash_recoverable); a leftover journal of any file a prefix can name makes '
-              'the start-up check refuse, for every prefix string (C06_refuses_leftover, C06_crashed_then_refused).')
-LEVEL_NOTE = ('An error reported by the final unlink of the journal cannot leave "no journal" by any implementation; '
-              'C06_unlink_fault_state proves the state is then that of a crash next to the unlink (record complete). The model is '
-              'hand-written; it is tied to wpull/warc/recorder.py by running both on every enumerated fault / kill point of the '
-              'small scope on every check and comparing the directory contents byte for byte. Below write()/unlink() nothing is '
-              'modelled (fsync, power loss).')
-TECHNIQUE = ('Coq proof by phase invariants over a primitive-operation file-system model with fault and crash adversaries; '
-             'vm_compute correspondence against the real write_record under fault / kill injection, exhaustive for the small scope')
+LEVEL_TEXT = ('Coq theorems over Model/Journal.v and the strict reader Spec/WarcReader.v, all closed under the global context, for ALL '
+              'directories, archive names, chunkings of the record, fault positions with arbitrary partial effect and crash points: '
+              '(1) an I/O error at any primitive of the append except the final unlink leaves the archive CONTENT, the absence of the '
+              'journal and every other file exactly as before (C06_io_error_restores; C06_append_outcome for every fault plan); '
+              '(2) process death at any primitive, also during the rollback after an error, leaves a valid record sequence or a '
+              'complete journal naming the old length whose truncation restores exactly the old, valid, content - with validity = the '
+              'strict WARC reader, per gzip member for compressed files (C06_crash_recoverable_warc / _warc_gz, '
+              'C06_crash_recoverable_content); (3) the same for every ending after a SEQUENCE of two I/O errors '
+              '(C06_fault_sequence_recoverable); (4) induction over histories: after any number of appends, each with a fault at an '
+              'arbitrary point, the archive is the old one followed by exactly the surviving records, stays valid, and a kill in a '
+              'further append is recoverable (C06_history_content, C06_history_no_journal, C06_history_then_crash_warc / _gz); '
+              '(5) while the journal of any file a prefix can name exists, the start-up check refuses and the constructor leaves the '
+              'directory untouched, for every prefix string and option combination (C06_refuses_leftover, C06_init_refuses, '
+              'C06_crashed_then_refused).')
+LEVEL_NOTE = ('An error reported by the final unlink of the journal cannot leave "no journal" in any implementation; '
+              'C06_unlink_fault_state proves the state is then that of a crash next to the unlink (record complete, journal possibly '
+              'left). The model is hand-written; it is tied to wpull/warc/recorder.py by running both on every enumerated fault, '
+              'fault-pair and kill point of the small scope (plain/gzip x absent/empty/1-3 earlier records x record shapes x write '
+              'prefixes), on random histories and on start-up directories on every check, comparing directory contents byte for byte. '
+              'The gzip decoder is a parameter with a sampled front-locality hypothesis. Below write()/unlink() nothing is modelled '
+              '(fsync, power loss); non-OSError exceptions during an append are outside the property.')
+TECHNIQUE = ('Coq proof by phase invariants over a primitive-operation file-system model with fault, second-fault and crash adversaries, '
+             'induction over append histories, front-locality of a strict WARC reader; vm_compute correspondence against the real '
+             'write_record / constructor under fault and kill injection, exhaustive for the small scope')
